@@ -1,4 +1,5 @@
 CONSTANT Want = {"c01","c02","c03","c04","c05","c18","c19","c16"}
+CONSTANT Conform = FALSE
 INIT TraceInit
 NEXT TraceNext
 INVARIANTS C01_UnitsPreserved C02_Boundaries C03_Durations C04_Evolution C05_URIs C18_Retention C19_RegularParts C16_Multivariant
